@@ -11,6 +11,7 @@ import (
 	"math"
 	"testing"
 
+	"github.com/prometheus/prometheus/storage"
 	"github.com/prometheus/prometheus/tsdb/chunkenc"
 	"pgregory.net/rapid"
 
@@ -20,8 +21,29 @@ import (
 
 const sigC01FreshSeek = "C01/seek-before-first-next"
 
+// c01Bound, when set, wraps every replica in dedup.NewBoundedSeriesIterator(mint, maxt) the way the
+// querier does (pkg/query/iter.go); the oracle then works on the replicas clipped to [mint, maxt] and
+// ignores output beyond maxt (a bounded Seek may land on a later sample, which no reader looks at).
+var c01Bound *[2]int64
+
+type boundedSeries struct {
+	storage.Series
+	mint, maxt int64
+}
+
+func (b boundedSeries) Iterator(it chunkenc.Iterator) chunkenc.Iterator {
+	return dedup.NewBoundedSeriesIterator(b.Series.Iterator(nil), b.mint, b.maxt)
+}
+
 func newPenaltyIter(rs [][]smpl, f string) chunkenc.Iterator {
-	set := dedup.NewSeriesSet(seriesSetOf(rs), f, dedup.AlgorithmPenalty)
+	in := seriesSetOf(rs)
+	if c01Bound != nil {
+		l := in.(*listSeriesSet)
+		for i := range l.series {
+			l.series[i] = boundedSeries{l.series[i], c01Bound[0], c01Bound[1]}
+		}
+	}
+	set := dedup.NewSeriesSet(in, f, dedup.AlgorithmPenalty)
 	if !set.Next() {
 		return nil
 	}
@@ -73,6 +95,31 @@ func checkC01(rs [][]smpl, f string, mode string, seekPrefix int, seekT int64, s
 		return "series set empty", false, nil
 	}
 	full := drain(it)
+	if c01Bound != nil {
+		// the oracle's replicas are the samples inside the bounds
+		clipped := make([][]smpl, len(rs))
+		for i, r := range rs {
+			for _, x := range r {
+				if x.t >= c01Bound[0] && x.t <= c01Bound[1] {
+					clipped[i] = append(clipped[i], x)
+				}
+			}
+		}
+		rs = clipped
+		// With three or more replicas the outer iterator drives the inner one through Seek, and a
+		// bounded Seek may land on a sample later than maxt: output beyond maxt is ignored (no reader
+		// of the querier looks there), it only has to come from a replica.
+		for len(full) > 0 && full[len(full)-1].t > c01Bound[1] {
+			classes = append(classes, "output-beyond-maxt-ignored")
+			full = full[:len(full)-1]
+		}
+		for _, x := range full {
+			if x.t < c01Bound[0] || x.t > c01Bound[1] {
+				return fmt.Sprintf("a reader iterating with Next sees sample (%d,%v) outside the bounds [%d,%d] before an in-range one", x.t, x.v, c01Bound[0], c01Bound[1]), false, nil
+			}
+		}
+		classes = append(classes, "bounded-replicas")
+	}
 	if err := it.Err(); err != nil {
 		return "iterator error: " + err.Error(), false, nil
 	}
@@ -150,6 +197,11 @@ func checkC01(rs [][]smpl, f string, mode string, seekPrefix int, seekT int64, s
 			got = append(got, smpl{t0, v0})
 			got = append(got, drain(it2)...)
 		}
+		if c01Bound != nil {
+			for len(got) > 0 && got[len(got)-1].t > c01Bound[1] {
+				got = got[:len(got)-1]
+			}
+		}
 		if !sameSamples(got, want) {
 			return fmt.Sprintf("Seek(%d) after %d Next: got %s want suffix %s (full %s)", seekT, seekPrefix, render([][]smpl{got}), render([][]smpl{want}), render([][]smpl{full})), false, nil
 		}
@@ -204,10 +256,35 @@ func TestVerifC01(t *testing.T) {
 		if seekPrefix == 0 && known[sigC01FreshSeek] {
 			rec.Excluded(sigC01FreshSeek)
 		}
-		msg, nt, classes := checkC01(rs, f, mode, seekPrefix, seekT, known[sigC01FreshSeek])
-		if msg != "" {
-			rt.Fatalf("C01 violated: %s\nreplicas: %s f=%q", msg, render(rs), f)
+		// the querier's bounds: none, or [mint, maxt] on / next to sample timestamps
+		c01Bound = nil
+		bounds := ""
+		if len(ts) > 0 && rapid.IntRange(0, 2).Draw(rt, "bounded") == 0 {
+			pick := func(label string) int64 {
+				return ts[rapid.IntRange(0, len(ts)-1).Draw(rt, label)] + rapid.SampledFrom([]int64{0, 0, 0, 1, -1, 500}).Draw(rt, label+"Off")
+			}
+			lo, hi := pick("mint"), pick("maxt")
+			if rapid.IntRange(0, 2).Draw(rt, "maxtLast") == 0 {
+				hi = ts[len(ts)-1]
+			}
+			if lo > hi {
+				lo, hi = hi, lo
+			}
+			if rapid.IntRange(0, 3).Draw(rt, "mintOpen") == 0 {
+				lo = math.MinInt64
+			}
+			c01Bound = &[2]int64{lo, hi}
+			bounds = fmt.Sprintf(" bounds=[%d,%d]", lo, hi)
+			if seekPrefix >= 0 && rapid.IntRange(0, 2).Draw(rt, "seekMaxt") == 0 {
+				seekT = hi + rapid.SampledFrom([]int64{0, 0, -1, 1}).Draw(rt, "seekMaxtOff")
+			}
 		}
+		msg, nt, classes := checkC01(rs, f, mode, seekPrefix, seekT, known[sigC01FreshSeek])
+		c01Bound = nil
+		if msg != "" {
+			rt.Fatalf("C01 violated: %s\nreplicas: %s f=%q%s", msg, render(rs), f, bounds)
+		}
+		f += bounds
 		rec.Case(fmt.Sprintf("f=%s seek=%d@%d %s", f, seekPrefix, seekT, render(rs)), nt, append(classes, "mode-"+mode)...)
 	})
 }
